@@ -3,7 +3,7 @@
 From Coq Require Import Ascii String ZArith List Bool.
 Import ListNotations.
 From Coq Require Import PrimFloat.
-Require Import PyBase Solver SolverF FText FTextFacts FWrapFacts FWrap FWrapGreedyFacts FSem FSemFacts FParse FParseFacts FBenignFacts FSolve FSolveFacts FSolveSim FSolveRun FSolveEdge FEvalEdge FPassFacts FSolveAll FSolveAllG FPassSolve FortranF FortranExamples.
+Require Import PyBase Solver SolverF FText FTextFacts FWrapFacts FWrap FWrapGreedyFacts FSem FSemFacts FParse FParseFacts FBenignFacts FSolve FSolveFacts FSolveSim FSolveRun FSolveEdge FEvalEdge FPassFacts FSolveAll FSolveAllG FPassSolve FortranF FortranExamples FortranFloatFacts.
 Open Scope Z_scope.
 
 (* ================================================================== text of build_fortran_definition *)
@@ -61,13 +61,6 @@ Theorem C07_continuation_denotes_glue w0 rest :
 Proof. exact (continuation_denotes_glue w0 rest). Qed.
 Print Assumptions C07_continuation_denotes_glue.
 
-(* "the Fortran source ... compiles" for "long equations that need continuation lines": refuted when a blank-free run of the
-   code exceeds the wrap width — textwrap.wrap then breaks inside a token and the join puts blanks there (NEW finding) *)
-Theorem C07_continuation_splits_token_refuted :
-  logical false (plain_lines (wrapped_def [lit "y = abs(ab"; lit "s(x))"]) []) = lit "  y = abs(ab    s(x))" /\
-  lit "y = abs(ab" ++ lit "s(x))" = lit "y = abs(abs(x))".
-Proof. exact continuation_splits_token. Qed.
-Print Assumptions C07_continuation_splits_token_refuted.
 
 (* TEXT -> TREE inside the model (FParse.v): K checks per case that every generated statement, continuation lines joined,
    parses by the Fortran expression grammar to `s_regroup` of the tree the script was rendered from; this theorem says that
@@ -87,27 +80,32 @@ Theorem C07_term_text_reads_back i k :
 Proof. exact (term_text_reads_back i k). Qed.
 Print Assumptions C07_term_text_reads_back.
 
-(* textwrap.wrap INSIDE THE MODEL (FWrap.v; K: equation_block / array_def_block = the text of the generated module, per case):
-   when every chunk of the code fits the width, the lines are concatenations of WHOLE chunks and their words, read line after
-   line, are the words of the code in order — no token is split, lost or reordered by the line breaking *)
-Theorem C07_wrap_keeps_whole_words width (text : str) :
-  fits width (chunks_of text) ->
-  exists ls : list (list str), wrap width text = map (@concat ascii) ls /\ words (concat ls) = words (chunks_of text).
-Proof. exact (wrap_whole_words width text). Qed.
-Print Assumptions C07_wrap_keeps_whole_words.
+(* _wrap_code INSIDE THE MODEL (FWrap.v; K: equation_block / array_def_block = the text of the generated module, per case):
+   the lines are those of textwrap.wrap(break_long_words=False, break_on_hyphens=False) — concatenations of WHOLE chunks whose
+   words, read line after line, are the words of the code in order, WHATEVER their lengths — each cut further only directly
+   after `(`, `)` or `,`: every line break of the generated module lies between two tokens (holds since fix 45adc65; before,
+   a blank-free run longer than the width was cut inside a token) *)
+Theorem C07_wrap_breaks_between_tokens width (text : str) :
+  exists ls : list (list str),
+    wrap width text = flat_map (fun line => split_long (length line) width line) (map (@concat ascii) ls) /\
+    words (concat ls) = words (chunks_of text) /\
+    forall line, concat (split_long (length line) width line) = line /\
+                 Forall (fun piece => is_cut_char (last piece " "%char) = true) (removelast (split_long (length line) width line)).
+Proof. exact (wrap_breaks_between_tokens width text). Qed.
+Print Assumptions C07_wrap_breaks_between_tokens.
 
-(* ... and the kept finding derived from that model: a chunk longer than the width is cut inside the token `abs`; the code is a
-   statement of the Fortran grammar, the block written for it is not *)
-Theorem C07_wrap_splits_long_word_refuted :
+(* the input of the repaired finding: 26 nested calls, a blank-free run of 120 characters; the block written for it parses to the
+   very tree of the unwrapped code and no line exceeds the width *)
+Theorem C07_wrap_long_run_parses :
   let names := [lit "Y"; lit "X"] in
   let eq := lit "Y[t] = abs(abs(abs(abs(abs(abs(abs(abs(abs(abs(abs(abs(abs(abs(abs(abs(abs(abs(abs(abs(abs(abs(abs(abs(abs(abs(X[t]))))))))))))))))))))))))))" in
-  exists code blk,
+  exists code blk t,
     rewrite names eq = Some code /\ equation_block names 100 eq = Some blk /\
-    (exists t, parse_stmt code = Some (0%nat, t)) /\
-    parse_stmt (stmt_of_block blk) = None /\
-    ~ fits 100 (chunks_of code).
-Proof. exact wrap_splits_long_word. Qed.
-Print Assumptions C07_wrap_splits_long_word_refuted.
+    ~ fits 100 (chunks_of code) /\
+    parse_stmt code = Some (0%nat, t) /\ parse_stmt (stmt_of_block blk) = Some (0%nat, t) /\
+    Forall (fun l => (length l <= 100)%nat) (wrap 100 code).
+Proof. exact wrap_long_run_parses. Qed.
+Print Assumptions C07_wrap_long_run_parses.
 
 (* ================================================================== error codes *)
 Theorem C07_wrapper_codes_are_template_codes :
@@ -130,7 +128,9 @@ Section C07.
   Variables (exp4 log4 : num -> num) (pow4 : num -> num -> num).
   Variables (zero one : num).
   Variable isfin : num -> bool.
-  (* sign symmetry of IEEE multiplication and division (Fortran reads -a*b as -(a*b)) *)
+  (* sign symmetry of multiplication and division (Fortran reads -a*b as -(a*b)): used ONLY by the two expression-level theorems
+     C07_literal_free_expressions_agree / C07_benign_expressions_agree; the pass / solve_t / solve theorems ask for it at the values a
+     pass meets instead (FSemFacts.neg_sym inside pass_ok), which is a closed computation for binary64 data — see the F_… theorems *)
   Hypothesis neg_mul : forall x y, mul (neg x) y = neg (mul x y).
   Hypothesis neg_div : forall x y, div (neg x) y = neg (div x y).
 
@@ -159,12 +159,16 @@ Section C07.
   Proof. exact (literal_free_agree num add sub mul div neg absf ltb is_nan is_inf of_int fexp flog fpow round4 exp4 log4 pow4
                   zero one neg_mul neg_div catch rdp rdf e). Qed.
 
-  (* THE SAME WITH LITERALS — the common subset stated explicitly (FBenignFacts.benign): every literal is an integer
-     literal that fits INTEGER(4) or a decimal literal exactly representable in binary32, and is an immediate operand of
-     + - * / whose other operand is a REAL(8) expression.  There "numeric constants denote the same double-precision real
+  (* THE SAME WITH LITERALS — the common subset stated explicitly (FBenignFacts.benign): literals occur only in literal-only
+     subexpressions that are integer constant arithmetic (+ - * of literals that fit INTEGER(4), e.g. 2*3, (1+2)) or an exact
+     binary32 decimal under unary minus / abs (e.g. -1.5, abs(-0.25)), and each of those is an immediate operand of + - * /
+     whose other operand is a REAL(8) expression (2*3*X, (1+2)*X, abs(-1.5)*X) or — decimals only — of max / min (max(X, 0.0)).
+     NOT in the class and not agreeing bit for bit: integer division, inexact decimals, literal-only REAL(4) arithmetic,
+     max/min or exp/log of an integer literal (kept findings, refuted below), and `**` with a literal operand (X**2: gfortran
+     multiplies, Python calls pow(): equal only to rounding — checked by the oracle's tolerance class `powi`, no theorem).  There "numeric constants denote the same double-precision real
      numbers in both".  (Outside: the refutations below.)  All later theorems are stated for programs of this class. *)
   Theorem C07_benign_expressions_agree catch (rdp : nat -> Z -> option num) (rdf : nat -> Z -> num) (e : expr num) :
-    benign num e ->
+    benign num add sub mul div of_int fpow e ->
     (forall i k, In (i, k) (reads num e) -> rdp i k = Some (rdf i k)) ->
     mm_det rdf e ->
     (catch = false \/ quiet rdf e) ->
@@ -172,50 +176,57 @@ Section C07.
   Proof. exact (benign_agree num add sub mul div neg absf ltb is_nan is_inf of_int fexp flog fpow round4 exp4 log4 pow4
                   zero one neg_mul neg_div catch rdp rdf e). Qed.
 
-  Theorem C07_literal_free_is_benign (e : expr num) : literal_free num e = true -> benign num e.
-  Proof. exact (literal_free_benign num e). Qed.
+  (* "the Fortran source ... compiles", as far as kinds go: every operator of a benign program meets operand kinds gfortran
+     accepts (FSem.f_compiles).  That the TEXT is well-formed Fortran is tied per case by K (FParse / FWrap), not proved *)
+  Theorem C07_benign_compiles (prog : list (eqn num)) :
+    Forall (fun q => benign num add sub mul div of_int fpow (snd q)) prog ->
+    f_compiles num add sub mul div neg absf ltb of_int fexp flog fpow round4 exp4 log4 pow4 zero one prog = true.
+  Proof. exact (benign_compiles num add sub mul div neg absf ltb is_nan is_inf of_int fexp flog fpow round4 exp4 log4 pow4 zero one prog). Qed.
+
+  Theorem C07_literal_free_is_benign (e : expr num) : literal_free num e = true -> benign num add sub mul div of_int fpow e.
+  Proof. exact (literal_free_benign num add sub mul div of_int fpow e). Qed.
 
   (* one evaluation pass: `self._X[t+k]` and `solved_values(number of X, index+k)` denote the same cell for either spelling
      of t, and statement by statement both engines store the same value: the whole store after the pass is the same *)
   Theorem C07_pass_agree catch n m lg ld t p (prog : list (eqn num)) (v : vals num) :
     shape n m v -> py_pos n t = Some p ->
-    prog_scoped num m lg ld prog -> lg <= Z.of_nat p -> Z.of_nat p + ld < Z.of_nat n ->
+    prog_scoped num add sub mul div of_int fpow m lg ld prog -> lg <= Z.of_nat p -> Z.of_nat p + ld < Z.of_nat n ->
     pass_ok catch prog p v ->
     py_pass catch prog n t v = (f_pass prog (Z.of_nat p + 1) v, None).
   Proof. exact (pass_agree num add sub mul div neg absf ltb is_nan is_inf of_int fexp flog fpow round4 exp4 log4 pow4 zero one
-                  neg_mul neg_div catch n m lg ld t p prog v). Qed.
+                  catch n m lg ld t p prog v). Qed.
 
   (* FortranEngine._evaluate(t) over the generated module = the generated Python _evaluate(t) on a feasible period *)
   Theorem C07_evaluate_engines_agree (prog : list (eqn num)) fm (lg ld : nat) t s p n m :
     shape n m (vals_of s) -> length (status s) = n -> (0 < m)%nat ->
     fm_lags fm = Z.of_nat lg -> fm_leads fm = Z.of_nat ld ->
-    prog_scoped num m (Z.of_nat lg) (Z.of_nat ld) prog ->
+    prog_scoped num add sub mul div of_int fpow m (Z.of_nat lg) (Z.of_nat ld) prog ->
     py_pos n t = Some p -> (lg <= p)%nat -> (p + ld < n)%nat ->
     pass_ok false prog p (vals_of s) ->
     w_evaluate num (f_pass prog) fm t s = (setvals num s (f_pass prog (Z.of_nat p + 1) (vals_of s)), Ret tt) /\
     py_pass false prog n t (vals_of s) = (f_pass prog (Z.of_nat p + 1) (vals_of s), None).
   Proof. exact (evaluate_engines_agree num add sub mul div neg absf ltb is_nan is_inf of_int fexp flog fpow round4 exp4 log4 pow4
-                  zero one neg_mul neg_div prog fm lg ld t s p n m). Qed.
+                  zero one prog fm lg ld t s p n m). Qed.
 
   (* _evaluate(t) with t outside the span in both spellings: IndexError from both engines, nothing stored *)
   Theorem C07_evaluate_out_of_span (evf : Z -> vals num -> vals num) (prog : list (eqn num)) fm t s n m i e r :
     shape n m (vals_of s) -> length (status s) = n -> (0 < m)%nat ->
-    prog = (i, e) :: r -> benign num e ->
+    prog = (i, e) :: r -> benign num add sub mul div of_int fpow e ->
     py_pos n t = None ->
     w_evaluate num evf fm t s = (s, Raise IndexError) /\
     py_pass false prog n t (vals_of s) = (vals_of s, Some tag_index).
   Proof. exact (evaluate_out_of_span num add sub mul div neg absf ltb is_nan is_inf of_int fexp flog fpow evf prog fm t s n m i e r). Qed.
 
   (* FortranEngine.solve_t over ANY equations block `evf` refines BaseModel.solve_t whose evaluation oracle is that block:
-     same return value / exception class, values, statuses, iteration counts — for every option of the lattice with
-     max_iter >= 1, offsets inside the span, either spelling of t, inside the regime where the template's finiteness test
+     same return value / exception class, values, statuses, iteration counts — for every option of the lattice,
+     offsets inside the span, either spelling of t, inside the regime where the template's finiteness test
      (all endogenous variables) and the Python one (check variables) coincide *)
   Theorem C07_wrapper_refines_python_solve_t (evf : Z -> vals num -> vals num) (ev before after : hook num) fm d o t s p n m :
     shape n m (vals_of s) -> length (status s) = n -> (0 < m)%nat ->
     rows_ok m (check d) -> rows_ok m (endo d) ->
     fm_endo fm = endo_nums d -> fm_lags fm = Z.of_nat (lags d) -> fm_leads fm = Z.of_nat (leads d) ->
     py_pos n t = Some p -> feasible d n p = true ->
-    errors o <> EInvalid -> 0 < max_iter o -> min_iter o <= max_iter o ->
+    errors o <> EInvalid -> min_iter o <= max_iter o ->
     (offset o = 0 \/ 0 <= Z.of_nat p + offset o < Z.of_nat n) ->
     (forall v, shape n m v -> shape n m (evf (Z.of_nat p + 1) v)) ->
     let v0 := seeded num zero d o (vals_of s) p in
@@ -234,7 +245,7 @@ Section C07.
     rows_ok m (check d) -> rows_ok m (endo d) ->
     fm_endo fm = endo_nums d -> fm_lags fm = Z.of_nat (lags d) -> fm_leads fm = Z.of_nat (leads d) ->
     py_pos n t = Some p -> feasible d n p = true ->
-    errors o <> EInvalid -> 0 < max_iter o -> min_iter o <= max_iter o ->
+    errors o <> EInvalid -> min_iter o <= max_iter o ->
     (offset o = 0 \/ 0 <= Z.of_nat p + offset o < Z.of_nat n) ->
     (forall v, shape n m v -> shape n m (evf (Z.of_nat p + 1) v)) ->
     let v0 := seeded num zero d o (vals_of s) p in
@@ -253,9 +264,9 @@ Section C07.
     shape n m (vals_of s) -> length (status s) = n -> (0 < m)%nat ->
     rows_ok m (check d) -> rows_ok m (endo d) ->
     fm_endo fm = endo_nums d -> fm_lags fm = Z.of_nat (lags d) -> fm_leads fm = Z.of_nat (leads d) ->
-    prog_scoped num m (Z.of_nat (lags d)) (Z.of_nat (leads d)) prog ->
+    prog_scoped num add sub mul div of_int fpow m (Z.of_nat (lags d)) (Z.of_nat (leads d)) prog ->
     py_pos n t = Some p -> feasible d n p = true ->
-    errors o <> EInvalid -> 0 < max_iter o -> min_iter o <= max_iter o ->
+    errors o <> EInvalid -> min_iter o <= max_iter o ->
     (offset o = 0 \/ 0 <= Z.of_nat p + offset o < Z.of_nat n) ->
     let v0 := seeded num zero d o (vals_of s) p in
     all_finite num isfin (get_check num zero d v0 p) = true ->
@@ -263,7 +274,7 @@ Section C07.
                 (is_raise (errors o) && catch_first o) prog d o p v0 (Z.to_nat (max_iter o)) 0 ->
     agree num (w_solve_t (f_pass prog) fm d o t s) (solve_t_M (py_hook prog n) (no_hook num) (no_hook num) d o t s).
   Proof. exact (solve_t_engines_agree num add sub mul div neg absf ltb is_nan is_inf of_int fexp flog fpow round4 exp4 log4 pow4
-                  zero one isfin neg_mul neg_div prog fm d o t s p n m). Qed.
+                  zero one isfin prog fm d o t s p n m). Qed.
 
   (* FortranEngine.solve (ONE call of the template's `solve` over all periods, then the wrapper's result loop) refines
      SolverMixin.solve (a loop of solve_t calls), for any equations block: same list of return values or exception class,
@@ -272,7 +283,7 @@ Section C07.
   Theorem C07_wrapper_refines_python_solve (evf : Z -> vals num -> vals num) (ev : hook num) fm d o n m ec fc fl ps s :
     (0 < m)%nat -> rows_ok m (check d) -> rows_ok m (endo d) ->
     fm_endo fm = endo_nums d -> fm_lags fm = Z.of_nat (lags d) -> fm_leads fm = Z.of_nat (leads d) ->
-    0 < max_iter o -> min_iter o <= max_iter o ->
+    min_iter o <= max_iter o ->
     (forall idx v, shape n m v -> shape n m (evf idx v)) ->
     w_ec (errors o) = Some ec -> w_fc fl = Some fc ->
     fail_raise o = match fl with FRaise => true | _ => false end ->
@@ -280,8 +291,8 @@ Section C07.
     solve_ok num sub absf ltb isfin zero evf ev fm d o n ec ps (vals_of s) ->
     agree num (w_solve num sub absf ltb isfin zero evf fm d o fl ps s)
               (py_solve num sub absf ltb isfin zero ev (no_hook num) (no_hook num) d o ps s).
-  Proof. intros H1 H2 H3 H4 H5 H6 H7 H8 H9 H10 H11 H12.
-         exact (w_solve_refines num sub absf ltb isfin zero evf ev fm d o n m ec fc fl H1 H2 H3 H4 H5 H6 H7 H8 H9 H10 H11 H12 ps s). Qed.
+  Proof. intros H1 H2 H3 H4 H5 H6 H7 H8 H9 H10 H11.
+         exact (w_solve_refines num sub absf ltb isfin zero evf ev fm d o n m ec fc fl H1 H2 H3 H4 H5 H6 H7 H8 H9 H10 H11 ps s). Qed.
 
   (* the same beyond the finite regime (FSolveAllG.solve_okG): every period the solve REACHES either runs finite passes
      ('.' / 'F'), or lies in the regime of C07_wrapper_refines_python_solve_t ('.', 'F', 'S' under errors='skip', 'E' +
@@ -291,7 +302,7 @@ Section C07.
   Theorem C07_wrapper_refines_python_solve_all_statuses (evf : Z -> vals num -> vals num) (ev : hook num) fm d o n m ec fc fl ps s :
     (0 < m)%nat -> rows_ok m (check d) -> rows_ok m (endo d) ->
     fm_endo fm = endo_nums d -> fm_lags fm = Z.of_nat (lags d) -> fm_leads fm = Z.of_nat (leads d) ->
-    0 < max_iter o -> min_iter o <= max_iter o ->
+    min_iter o <= max_iter o ->
     (forall idx v, shape n m v -> shape n m (evf idx v)) ->
     w_ec (errors o) = Some ec -> w_fc fl = Some fc ->
     fail_raise o = match fl with FRaise => true | _ => false end ->
@@ -299,15 +310,15 @@ Section C07.
     solve_okG num sub absf ltb isfin zero evf ev fm d o n ec ps (vals_of s) ->
     agree num (w_solve num sub absf ltb isfin zero evf fm d o fl ps s)
               (py_solve num sub absf ltb isfin zero ev (no_hook num) (no_hook num) d o ps s).
-  Proof. intros H1 H2 H3 H4 H5 H6 H7 H8 H9 H10 H11 H12.
-         exact (w_solve_refinesG num sub absf ltb isfin zero evf ev fm d o n m ec fc fl H1 H2 H3 H4 H5 H6 H7 H8 H9 H10 H11 H12 ps s). Qed.
+  Proof. intros H1 H2 H3 H4 H5 H6 H7 H8 H9 H10 H11.
+         exact (w_solve_refinesG num sub absf ltb isfin zero evf ev fm d o n m ec fc fl H1 H2 H3 H4 H5 H6 H7 H8 H9 H10 H11 ps s). Qed.
 
   (* END TO END, solve: the engine compiled from `prog` and the class generated from `prog` *)
   Theorem C07_solve_engines_agree (prog : list (eqn num)) fm d o n m ec fc fl ps s :
     (0 < m)%nat -> rows_ok m (check d) -> rows_ok m (endo d) ->
     fm_endo fm = endo_nums d -> fm_lags fm = Z.of_nat (lags d) -> fm_leads fm = Z.of_nat (leads d) ->
-    prog_scoped num m (Z.of_nat (lags d)) (Z.of_nat (leads d)) prog ->
-    0 < max_iter o -> min_iter o <= max_iter o ->
+    prog_scoped num add sub mul div of_int fpow m (Z.of_nat (lags d)) (Z.of_nat (leads d)) prog ->
+    min_iter o <= max_iter o ->
     w_ec (errors o) = Some ec -> w_fc fl = Some fc ->
     fail_raise o = match fl with FRaise => true | _ => false end ->
     shape n m (vals_of s) -> length (status s) = n ->
@@ -315,9 +326,9 @@ Section C07.
                   prog fm d o n ec ps (vals_of s) ->
     agree num (w_solve num sub absf ltb isfin zero (f_pass prog) fm d o fl ps s)
               (py_solve num sub absf ltb isfin zero (py_hook prog n) (no_hook num) (no_hook num) d o ps s).
-  Proof. intros H1 H2 H3 H4 H5 H6 H7 H8 H9 H10 H11 H12.
+  Proof. intros H1 H2 H3 H4 H5 H6 H7 H8 H9 H10 H11.
          exact (solve_engines_agree num add sub mul div neg absf ltb is_nan is_inf of_int fexp flog fpow round4 exp4 log4 pow4
-                  zero one isfin neg_mul neg_div prog fm d o n m ec fc fl H1 H2 H3 H4 H5 H6 H7 H8 H9 H10 H11 H12 ps s). Qed.
+                  zero one isfin prog fm d o n m ec fc fl H1 H2 H3 H4 H5 H6 H7 H8 H9 H10 H11 ps s). Qed.
 
   (* ---- FortranEngine.solve_t rejects exactly as BaseModel.solve_t does: min_iter > max_iter (ValueError), an offset that
      leaves the span (IndexError), pre-existing non-finite check values under errors='raise' (SolutionError, not chained) *)
@@ -343,38 +354,53 @@ Section C07.
     solve_t_M ev before after d o t s = (with_vals num s (seeded num zero d o (vals_of s) p) (log s), Raise (SolutionError None)).
   Proof. exact (both_reject_pre_existing num sub absf ltb isfin zero evf ev before after fm d o t s p). Qed.
 
-  (* ---- where they differ, for EVERY model and store (the statement's "same exception types / statuses" is false there):
-     a period without room for the lags / leads -> FortranEngineError vs IndexError (template codes 13 / 14 unmapped) *)
-  Theorem C07_infeasible_period_differs (evf : Z -> vals num -> vals num) (ev before after : hook num) fm d o t s p n m :
-    shape n m (vals_of s) -> length (status s) = n -> (0 < m)%nat ->
-    fm_lags fm = Z.of_nat (lags d) -> fm_leads fm = Z.of_nat (leads d) ->
+  (* a period without room for the lags / leads: IndexError from both, nothing changes, whatever the offset (holds since fix
+     1354783; before, FortranEngine.solve_t raised FortranEngineError after copying the offset values) *)
+  Theorem C07_both_reject_infeasible (evf : Z -> vals num -> vals num) (ev before after : hook num) fm d o t s p :
     min_iter o <= max_iter o -> errors o <> EInvalid ->
-    py_pos n t = Some p -> feasible d n p = false ->
-    (offset o = 0 \/ 0 <= Z.of_nat p + offset o < Z.of_nat n) ->
-    is_raise (errors o) && negb (all_finite num isfin (get_check num zero d (seeded num zero d o (vals_of s) p) p)) = false ->
-    w_solve_t evf fm d o t s = (setvals num s (seeded num zero d o (vals_of s) p), Raise FortranEngineError) /\
-    solve_t_M ev before after d o t s = (s, Raise IndexError).
-  Proof. exact (infeasible_period_differs num sub absf ltb isfin zero evf ev before after fm d o t s p n m). Qed.
+    py_pos (length (status s)) t = Some p -> feasible d (length (status s)) p = false ->
+    w_solve_t evf fm d o t s = (s, Raise IndexError) /\ solve_t_M ev before after d o t s = (s, Raise IndexError).
+  Proof. exact (both_reject_infeasible num sub absf ltb isfin zero evf ev before after fm d o t s p). Qed.
 
-  (* max_iter = 0 -> FortranEngineError (error_code keeps its initial -1) vs 'F' / 0 iterations / NonConvergenceError or False *)
-  Theorem C07_max_iter_zero_differs (evf : Z -> vals num -> vals num) (ev before after : hook num) fm d o t s p n m :
+  (* max_iter < 1: no pass runs; both record 'F' with 0 iterations and raise NonConvergenceError / return False (holds since fix
+     131915c; before, the template's error_code kept its initial -1 and the wrapper raised FortranEngineError).  With this the
+     refinement theorems above need no lower bound on max_iter any more *)
+  Theorem C07_max_iter_zero_agree (evf : Z -> vals num -> vals num) (ev before after : hook num) fm d o t s p n m :
     shape n m (vals_of s) -> length (status s) = n -> (0 < m)%nat ->
     rows_ok m (check d) -> rows_ok m (endo d) ->
     fm_endo fm = endo_nums d -> fm_lags fm = Z.of_nat (lags d) -> fm_leads fm = Z.of_nat (leads d) ->
-    min_iter o <= max_iter o -> max_iter o = 0 -> errors o <> EInvalid ->
+    min_iter o <= max_iter o -> max_iter o <= 0 -> errors o <> EInvalid ->
     py_pos n t = Some p -> feasible d n p = true ->
     (offset o = 0 \/ 0 <= Z.of_nat p + offset o < Z.of_nat n) ->
     is_raise (errors o) && negb (all_finite num isfin (get_check num zero d (seeded num zero d o (vals_of s) p) p)) = false ->
     (forall em cf k v, before t em cf k v = (v, None)) ->
-    w_solve_t evf fm d o t s = (setvals num s (seeded num zero d o (vals_of s) p), Raise FortranEngineError) /\
+    let out := if fail_raise o then Raise NonConvergenceError else Ret false in
+    w_solve_t evf fm d o t s =
+      (mkState (seeded num zero d o (vals_of s) p) (upd p Failed (status s)) (upd p 0 (iters s)) (log s), out) /\
     solve_t_M ev before after d o t s =
-      (mkState (seeded num zero d o (vals_of s) p) (upd p Failed (status s)) (upd p 0 (iters s)) (log s ++ [EvBefore t]),
-       if fail_raise o then Raise NonConvergenceError else Ret false).
-  Proof. exact (max_iter_zero_differs num sub absf ltb isfin zero evf ev before after fm d o t s p n m). Qed.
+      (mkState (seeded num zero d o (vals_of s) p) (upd p Failed (status s)) (upd p 0 (iters s)) (log s ++ [EvBefore t]), out).
+  Proof. exact (max_iter_zero_agree num sub absf ltb isfin zero evf ev before after fm d o t s p n m). Qed.
+
+  (* solve(start=, end=): both engines select the same periods (defaults by position since 7cd6323 / 084a032; IndexError when the
+     span is too short for the lags / leads) and then agree as in C07_wrapper_refines_python_solve_all_statuses *)
+  Theorem C07_solve_start_end_refines (evf : Z -> vals num -> vals num) (ev : hook num) fm d o n m ec fc fl start stop s :
+    (0 < m)%nat -> rows_ok m (check d) -> rows_ok m (endo d) ->
+    fm_endo fm = endo_nums d -> fm_lags fm = Z.of_nat (lags d) -> fm_leads fm = Z.of_nat (leads d) ->
+    min_iter o <= max_iter o ->
+    (forall idx v, shape n m v -> shape n m (evf idx v)) ->
+    w_ec (errors o) = Some ec -> w_fc fl = Some fc ->
+    fail_raise o = match fl with FRaise => true | _ => false end ->
+    shape n m (vals_of s) -> length (status s) = n ->
+    (forall ps, sel_positions d n start stop = inl ps -> solve_okG num sub absf ltb isfin zero evf ev fm d o n ec ps (vals_of s)) ->
+    agree num (w_solve_se num sub absf ltb isfin zero evf fm d o fl start stop s)
+              (py_solve_se num sub absf ltb isfin zero ev (no_hook num) (no_hook num) d o start stop s).
+  Proof. intros H1 H2 H3 H4 H5 H6 H7 H8 H9 H10 H11.
+         exact (w_solve_se_refines num sub absf ltb isfin zero evf ev fm d o n m ec fc fl H1 H2 H3 H4 H5 H6 H7 H8 H9 H10 H11 start stop s). Qed.
 End C07.
 Print Assumptions C07_literal_free_expressions_agree.
 Print Assumptions C07_benign_expressions_agree.
 Print Assumptions C07_literal_free_is_benign.
+Print Assumptions C07_benign_compiles.
 Print Assumptions C07_pass_agree.
 Print Assumptions C07_evaluate_engines_agree.
 Print Assumptions C07_evaluate_out_of_span.
@@ -387,8 +413,87 @@ Print Assumptions C07_solve_engines_agree.
 Print Assumptions C07_both_reject_min_gt_max.
 Print Assumptions C07_both_reject_offset_out_of_span.
 Print Assumptions C07_both_reject_pre_existing.
-Print Assumptions C07_infeasible_period_differs.
-Print Assumptions C07_max_iter_zero_differs.
+Print Assumptions C07_both_reject_infeasible.
+Print Assumptions C07_max_iter_zero_agree.
+Print Assumptions C07_solve_start_end_refines.
+
+(* ================================================================== the same AT BINARY64 (no hypothesis about the arithmetic) *)
+(* Coq's primitive floats; exp / log / ** from one table shared by both evaluators.  pass_ok / run_ok_prog / solve_ok_prog contain
+   the sign-symmetry condition at the values met (neg_sym), finiteness, benign max / min and absence of numpy warnings: all closed
+   computations on float data; the instances below discharge them for float programs *)
+Theorem C07_F_pass_agree orc catch n m lg ld t p (prog : list feqn) (v : vals float) :
+  shape n m v -> py_pos n t = Some p ->
+  prog_scoped float PrimFloat.add PrimFloat.sub PrimFloat.mul PrimFloat.div f_of_int (look2 (o_pow orc)) m lg ld prog -> lg <= Z.of_nat p -> Z.of_nat p + ld < Z.of_nat n ->
+  Fpass_ok orc catch prog p v ->
+  F_py_pass orc catch prog n t v = (F_f_pass orc prog (Z.of_nat p + 1) v, None).
+Proof. exact (F_pass_agree orc catch n m lg ld t p prog v). Qed.
+Print Assumptions C07_F_pass_agree.
+
+Theorem C07_F_solve_t_engines_agree orc (prog : list feqn) fm d (o : fopts) t (s : fstate) p n m :
+  shape n m (vals_of s) -> length (status s) = n -> (0 < m)%nat ->
+  rows_ok m (check d) -> rows_ok m (endo d) ->
+  fm_endo fm = endo_nums d -> fm_lags fm = Z.of_nat (lags d) -> fm_leads fm = Z.of_nat (leads d) ->
+  prog_scoped float PrimFloat.add PrimFloat.sub PrimFloat.mul PrimFloat.div f_of_int (look2 (o_pow orc)) m (Z.of_nat (lags d)) (Z.of_nat (leads d)) prog ->
+  py_pos n t = Some p -> feasible d n p = true ->
+  errors o <> EInvalid -> min_iter o <= max_iter o ->
+  (offset o = 0 \/ 0 <= Z.of_nat p + offset o < Z.of_nat n) ->
+  let v0 := seeded float fzero d o (vals_of s) p in
+  all_finite float fisfin (get_check float fzero d v0 p) = true ->
+  Frun_ok_prog orc (is_raise (errors o) && catch_first o) prog d o p v0 (Z.to_nat (max_iter o)) 0 ->
+  agree float (Fw_solve_t (F_f_pass orc prog) fm d o t s) (Fsolve_t_M (F_py_hook orc prog n) (no_hook float) (no_hook float) d o t s).
+Proof. exact (F_solve_t_engines_agree orc prog fm d o t s p n m). Qed.
+Print Assumptions C07_F_solve_t_engines_agree.
+
+Theorem C07_F_solve_engines_agree orc (prog : list feqn) fm d (o : fopts) n m ec fc fl ps (s : fstate) :
+  (0 < m)%nat -> rows_ok m (check d) -> rows_ok m (endo d) ->
+  fm_endo fm = endo_nums d -> fm_lags fm = Z.of_nat (lags d) -> fm_leads fm = Z.of_nat (leads d) ->
+  prog_scoped float PrimFloat.add PrimFloat.sub PrimFloat.mul PrimFloat.div f_of_int (look2 (o_pow orc)) m (Z.of_nat (lags d)) (Z.of_nat (leads d)) prog ->
+  min_iter o <= max_iter o ->
+  w_ec (errors o) = Some ec -> w_fc fl = Some fc ->
+  fail_raise o = match fl with FRaise => true | _ => false end ->
+  shape n m (vals_of s) -> length (status s) = n ->
+  Fsolve_ok_prog orc prog fm d o n ec ps (vals_of s) ->
+  agree float (Fw_solve (F_f_pass orc prog) fm d o fl ps s) (Fpy_solve (F_py_hook orc prog n) (no_hook float) (no_hook float) d o ps s).
+Proof. exact (F_solve_engines_agree orc prog fm d o n m ec fc fl ps s). Qed.
+Print Assumptions C07_F_solve_engines_agree.
+
+(* float witnesses: Y = -{a} * Y[-1] + 0.5 * X (a leading minus Fortran regroups, an exact decimal literal), a = -0.5, negative t:
+   every hypothesis of the two theorems above is discharged by computation; converged at pass 2 *)
+Theorem C07_F_solve_t_instance :
+  agree float (Fw_solve_t (F_f_pass no_orc fprogw) ffmodw fdescw foptsw (-3) fstatew)
+              (Fsolve_t_M (F_py_hook no_orc fprogw 4) (no_hook float) (no_hook float) fdescw foptsw (-3) fstatew) /\
+  snd (Fw_solve_t (F_f_pass no_orc fprogw) ffmodw fdescw foptsw (-3) fstatew) = Ret true /\
+  nth 1 (iters (fst (Fw_solve_t (F_f_pass no_orc fprogw) ffmodw fdescw foptsw (-3) fstatew))) 0 = 2.
+Proof. exact F_solve_t_engines_agree_instance. Qed.
+Print Assumptions C07_F_solve_t_instance.
+
+Theorem C07_F_solve_instance :
+  agree float (Fw_solve (F_f_pass no_orc fprogw) ffmodw fdescw foptsw FRaise [1; 2; 3]%nat fstatew)
+              (Fpy_solve (F_py_hook no_orc fprogw 4) (no_hook float) (no_hook float) fdescw foptsw [1; 2; 3]%nat fstatew) /\
+  snd (Fw_solve (F_f_pass no_orc fprogw) ffmodw fdescw foptsw FRaise [1; 2; 3]%nat fstatew) = Ret [true; true; true].
+Proof. exact F_solve_engines_agree_instance. Qed.
+Print Assumptions C07_F_solve_instance.
+
+(* the commonest uses of literals inside the class, at binary64: Y = 2*3*X + (1+2)*X + abs(-1.5)*X + max(X, 0.0) - min(1.5, X) is a
+   program of the class (the integer-conversion conditions are closed float computations), it compiles, and one pass of either
+   engine stores 21.5 for X = 2 *)
+Theorem C07_F_common_literal_uses_agree :
+  prog_scoped float PrimFloat.add PrimFloat.sub PrimFloat.mul PrimFloat.div f_of_int (look2 []) 2 0 0 fprogl /\
+  F_f_compiles fprogl = true /\
+  F_py_pass no_orc true fprogl 3 1 fvalsl = (F_f_pass no_orc fprogl 2 fvalsl, None) /\
+  nth 1 (nth 0 (F_f_pass no_orc fprogl 2 fvalsl) []) 0%float = 21.5%float.
+Proof. exact F_common_literal_uses_agree. Qed.
+Print Assumptions C07_F_common_literal_uses_agree.
+
+(* regime_from at binary64 with a pass that overflows: 'S', 1 iteration, False from both engines *)
+Theorem C07_F_regime_skip_instance :
+  agree float (Fw_solve_t (F_f_pass no_orc fprogq) ffmodq fdescq foptsq 1 fstateq)
+              (Fsolve_t_M (F_py_hook no_orc fprogq 3) (no_hook float) (no_hook float) fdescq foptsq 1 fstateq) /\
+  snd (Fw_solve_t (F_f_pass no_orc fprogq) ffmodq fdescq foptsq 1 fstateq) = Ret false /\
+  nth 1 (status (fst (Fw_solve_t (F_f_pass no_orc fprogq) ffmodq fdescq foptsq 1 fstateq))) Unsolved = Skipped /\
+  nth 1 (iters (fst (Fw_solve_t (F_f_pass no_orc fprogq) ffmodq fdescq foptsq 1 fstateq))) 0 = 1.
+Proof. exact F_regime_instance_skip. Qed.
+Print Assumptions C07_F_regime_skip_instance.
 
 (* ================================================================== what the current tree breaks (binary64 instances) *)
 (* "numeric constants in equations denote the same double-precision real numbers in both": refuted.  `1 / 2 * X` compiles,
@@ -415,13 +520,14 @@ Theorem C07_compiles_refuted :
 Proof. exact mixed_kind_witness. Qed.
 Print Assumptions C07_compiles_refuted.
 
-(* "the same exception types": refuted on a period without room for the lags *)
-Theorem C07_infeasible_period_exception_refuted :
-  snd (P_solve_t no_or prog1 desc1 (opts1 100 0 true ERaise) 0 state1) = XB (Raise IndexError) /\
-  snd (F_solve_t no_or prog1 fmod1 desc1 (opts1 100 0 true ERaise) 0 state1) = XB (Raise FortranEngineError) /\
+(* a period without room for the lags, offset -1, errors='skip': IndexError from both engines, nothing changed (binary64 instance of
+   C07_both_reject_infeasible; before fix 1354783: FortranEngineError) *)
+Theorem C07_infeasible_period_instance :
+  obs_eqb (F_solve_t no_or prog1 fmod1 desc1 (opts1 100 (-1) true ESkip) 0 state1) (state1, XB (Raise IndexError)) = true /\
+  obs_eqb (P_solve_t no_or prog1 desc1 (opts1 100 (-1) true ESkip) 0 state1) (state1, XB (Raise IndexError)) = true /\
   feasible desc1 4 0 = false.
-Proof. exact infeasible_period_witness. Qed.
-Print Assumptions C07_infeasible_period_exception_refuted.
+Proof. exact infeasible_period_instance. Qed.
+Print Assumptions C07_infeasible_period_instance.
 
 Theorem C07_evaluate_infeasible_refuted :
   snd (P_evaluate no_or prog1 0 state1) = XU (Ret tt) /\
@@ -429,14 +535,17 @@ Theorem C07_evaluate_infeasible_refuted :
 Proof. exact evaluate_infeasible_witness. Qed.
 Print Assumptions C07_evaluate_infeasible_refuted.
 
-(* "the same statuses, iteration counts, return values": refuted for max_iter = 0 *)
-Theorem C07_max_iter_zero_refuted :
+(* max_iter = 0: 'F', 0 iterations, False / NonConvergenceError from both engines (binary64 instance of C07_max_iter_zero_agree;
+   before fix 131915c: FortranEngineError) *)
+Theorem C07_max_iter_zero_instance :
   snd (P_solve_t no_or prog1 desc1 (opts1 0 0 false ERaise) 1 state1) = XB (Ret false) /\
   nth 1 (status (fst (P_solve_t no_or prog1 desc1 (opts1 0 0 false ERaise) 1 state1))) Unsolved = Failed /\
-  snd (F_solve_t no_or prog1 fmod1 desc1 (opts1 0 0 false ERaise) 1 state1) = XB (Raise FortranEngineError) /\
-  feasible desc1 4 1 = true.
-Proof. exact max_iter_zero_witness. Qed.
-Print Assumptions C07_max_iter_zero_refuted.
+  obs_eqb (F_solve_t no_or prog1 fmod1 desc1 (opts1 0 0 false ERaise) 1 state1)
+          (let '(s, x) := P_solve_t no_or prog1 desc1 (opts1 0 0 false ERaise) 1 state1 in (s, x)) = true /\
+  nth 1 (iters (fst (F_solve_t no_or prog1 fmod1 desc1 (opts1 0 0 false ERaise) 1 state1))) 7 = 0 /\
+  snd (F_solve_t no_or prog1 fmod1 desc1 (opts1 0 0 true ERaise) 1 state1) = XB (Raise NonConvergenceError).
+Proof. exact max_iter_zero_instance. Qed.
+Print Assumptions C07_max_iter_zero_instance.
 
 (* solve with an offset that leaves the span at the first period, errors <> 'raise': same exception, different values *)
 Theorem C07_solve_offset_values_refuted :
